@@ -184,6 +184,26 @@ def _fit_level(ctx, N):
     base = P.cls("skmatter._selection.GreedySelector")
     fit_m = P.method(base, "fit")
     site = ctx.site(fit_m)
+    # a single target given as a vector (the layout sklearn's validation hands over): stored as one column
+    for cq, pkg, axis, S in CLASSES:
+        cls = P.cls(cq)
+        cname = cls.name
+        if not ("PCov" in cname or axis == 0):
+            continue
+        ctor1 = {"n_to_select": integer("S")}
+        if "PCov" in cname:
+            ctor1["mixing"] = scalar("alpha", 0, 1, False, True)
+        if cname == "VoronoiFPS":
+            ctor1["full_fraction"] = scalar("ff", 0, 1, True, False)
+        I1 = ctx.interp(order=[("S", "<=", S)], assume=protocols.assume_default)
+        s1 = State()
+        o1 = ctx.construct(I1, s1, cls, **ctor1)
+        lo1 = len(I1.events)
+        ctx.call_method(I1, s1, o1, "fit", arr("X", "N", "M"), arr("y", "N"))
+        cfg1 = f"{pkg}.{cname} 1-D y"
+        ctx.no_shape_conflicts("Shape", f"{cfg1}: whole fit", I1, lo1, site, cfg1)
+        if axis == 0:
+            ctx.shape_is("R-BUFFERS", f"{cfg1}: y_selected_ holds one column", ctx.attr(s1, o1, "y_selected_"), ("S", 1), site, cfg1)
     for cq, pkg, axis, S in CLASSES:
         cls = P.cls(cq)
         cname = cls.name
@@ -227,7 +247,13 @@ def _fit_level(ctx, N):
                     ctx.ob("R-BUFFERS", f"{cfg}: buffer extent is the resolved request", sh is not None and sh[0] == want, f"extent {sh} expected ({want},)", site, cfg)
                 else:
                     t = repr(inits[0]["value"].term)
-                    ctx.ob("R-BUFFERS", f"{cfg}: buffer extent is int(n_candidates * fraction)", tq.has_op(inits[0]["value"].term, "int") and tq.has_sym(inits[0]["value"].term, "frac") and tq.has_size(inits[0]["value"].term, S), f"extent term {t[:200]}", site, cfg)
+                    # the extent of the buffer is the opaque integer int(n_candidates * fraction): find that
+                    # integer in the allocation and compare it with the reference resolution exactly
+                    I2r, s2r = ctx.interp(), State()
+                    refn = ctx.call_func(I2r, s2r, "ref.selection_ref.resolve_n_to_select", ctor["n_to_select"], integer(S), "float")
+                    ints = [x for x in tq.walk_all(inits[0]["value"].term) if getattr(x, "op", None) == "int"]
+                    ok_n = bool(ints) and all(N.nf(x) == N.nf(refn.term) for x in ints)
+                    ctx.ob("R-BUFFERS", f"{cfg}: buffer extent is int(n_candidates * fraction)", ok_n and tq.has_sym(inits[0]["value"].term, "frac") and tq.has_size(inits[0]["value"].term, S), f"extent term {t[:200]} ; expected {refn.term!r}", site, cfg)
             # R-TRUNC: the early return inside the greedy loop
             rets = [e for e in I.events[lo:] if e["kind"] == "return" and e.get("short") == "GreedySelector.fit" and e.get("loop_depth", 0) > 0]
             if not ctx.ob("R-TRUNC", f"{cfg}: threshold exit found inside the greedy loop", len(rets) == 1, f"{len(rets)} early returns", site, cfg):
